@@ -1,6 +1,6 @@
 (* C18 -- Protobuf merge semantics, on the schema-directed model of the generated decoders (Msg.v).
    Only statements, each closed by [exact] of a lemma proved in Proofs/, with Print Assumptions beneath. *)
-From PVPb Require Import Wire Codec Msg Proofs.WireP Proofs.CodecP Proofs.TotalP Proofs.DepthP Proofs.ShapeP Proofs.MergeP Proofs.MergeCor Proofs.UnknownP.
+From PVPb Require Import Wire Codec Msg Proofs.WireP Proofs.CodecP Proofs.TotalP Proofs.DepthP Proofs.ShapeP Proofs.MergeP Proofs.MergeCor Proofs.UnknownP Proofs.InterleaveP.
 Open Scope Z_scope.
 
 (* C18_concat: decoding e1 ++ e2 is decoding e1 and merging e2 into the result -- every schema, every message,
@@ -172,7 +172,23 @@ Theorem C18_embedded_merge : forall (sc : schema) i (fs : msgdesc) e1 a xs s1 t 
 Proof. exact embedded_merge. Qed.
 Print Assumptions C18_embedded_merge.
 
+(* C18_interleave, the generating step: two adjacent records that are routed to different struct fields commute --
+   anywhere behind a successfully decoded prefix, whatever follows.  [record sc d c fs t w pl p f cur v k] = the bytes
+   key(t, w) ++ pl are one record for slot p: the field merge takes the slot from cur to v, consumes exactly pl and
+   charges k, whatever follows.  (A record reads and writes its own slot only: merge_in_fields_pos.) *)
+Theorem C18_interleave_swap : forall (sc : schema) i (fs : msgdesc) e1 e2 a xs s1 t1 w1 pl1 p1 f1 v1 k1 t2 w2 pl2 p2 f2 v2 k2,
+  nth_error sc i = Some fs -> msg_decode sc i (mkR e1 a) = OOk (VL NMsg xs) s1 ->
+  record sc (Z.to_nat recursion_limit) ctx_default fs t1 w1 pl1 p1 f1 (nth p1 xs (VI 0)) v1 k1 ->
+  record sc (Z.to_nat recursion_limit) ctx_default fs t2 w2 pl2 p2 f2 (nth p2 xs (VI 0)) v2 k2 ->
+  p1 <> p2 -> (p1 < length xs)%nat -> (p2 < length xs)%nat ->
+  let R1 := encode_key t1 w1 ++ pl1 in let R2 := encode_key t2 w2 ++ pl2 in
+  msg_decode sc i (mkR (e1 ++ R1 ++ R2 ++ e2) a) = msg_decode sc i (mkR (e1 ++ R2 ++ R1 ++ e2) a).
+Proof. exact decode_swap. Qed.
+Print Assumptions C18_interleave_swap.
+
 (* NOT PROVED (validated by the generated-message correspondence and the reference merge_spec on every run):
-   C18_interleave : any interleaving of the records of e1 and e2 that preserves the relative order of records
-     with the same field number (same oneof) decodes to the same message (records of different fields commute);
-   C18_merge_spec : msg_decode sc i (enc_msg x ++ enc_msg y) = OK (merge_spec x y) for typed values x y. *)
+   C18_interleave : every interleaving of the records of e1 and e2 that preserves the relative order of records with
+     the same field number (same oneof) decodes to the same message -- such interleavings are generated by the swaps of
+     C18_interleave_swap; the closure (a permutation argument over record lists) is not formalised;
+   C18_merge_spec : msg_decode sc i (enc_msg x ++ enc_msg y) = OK (merge_spec x y) for typed values x y (the per-field
+     content of merge_spec is C18_last_wins / _repeated_order / _oneof_replace / _map_replace / _embedded_merge). *)
